@@ -409,7 +409,11 @@ func verifHosts(l *roundRobinLoadBalancer) []*Host { return l.hosts.Load().([]*H
 
 // Every pool - including the pools created later for hosts that join the cluster - carries the
 // session's prepared cache, so that its connections can re-prepare statements.
+//@ loop proxycore.connectPoolNoFail #1
+//@   invariant 0 <= i && pool != nil && fresh(pool) && pool.connsMu != nil && pool.logger != nil && len(pool.conns) == config.NumConns && pool.config.ReconnectPolicy == config.ReconnectPolicy
+
 //@ func proxycore.connectPoolNoFail [C08]
+//@   requires config.ReconnectPolicy != nil && config.NumConns >= 0
 //@   ensures result != nil && fresh(result) && result.preparedCache == config.PreparedCache && result.config.Version == config.Version && result.config.Keyspace == config.Keyspace && result.config.Compression == config.Compression
 //@   modifies nothing
 
@@ -737,7 +741,26 @@ func verifHosts(l *roundRobinLoadBalancer) []*Host { return l.hosts.Load().([]*H
 
 //@ func proxycore.Session.OnEvent [C17, C01]
 //@   local $poolFiledNil bool = false
-//@   requires s != nil
+//@   requires s != nil && s.config.ReconnectPolicy != nil && s.config.NumConns >= 0
 //@   before sync.Map.LoadOrStore#* set $poolFiledNil = $poolFiledNil || arg2 == nil || valof(arg2) == 0
 //@   ensures files-only-pools: !$poolFiledNil
 //@   modifies *
+
+// ConnectCluster: the control goroutine is started only on a cluster object that satisfies what
+// stayConnected relies on (checked at the go statement): a control connection with zero outage clock,
+// a non-empty host list, a reconnect policy.
+//@ iface proxycore.EndpointResolver.Resolve
+//@   modifies nothing
+
+//@ func proxycore.GetOrCreateNopLogger
+//@   ensures result != nil
+//@   modifies nothing
+
+//@ loop proxycore.ConnectCluster #1
+//@   invariant c != nil && fresh(c) && c.logger != nil && c.config.Resolver != nil && c.config.ReconnectPolicy != nil && (c.controlConn != nil ==> $outageZero) && connOK(c.controlConn)
+//@   invariant rangeindex >= 0 ==> err != nil
+
+//@ func proxycore.ConnectCluster [C16, C17]
+//@   requires config.Resolver != nil && config.ReconnectPolicy != nil
+//@   ensures result1 == nil ==> result0 != nil
+//@   modifies *, $outageZero
